@@ -59,6 +59,10 @@ def build_args(name, spec, n, m):
     for k, v in spec.items():
         if k == "kernel_sigma":
             kw["kernel"] = partial(rbf_kernel, sigma=v)
+        elif k == "kernel_poly":
+            import kernels_extra
+
+            kw["kernel"] = partial(kernels_extra.poly_kernel, c=v)
         elif k == "weights":
             kw["u_weights"] = np.linspace(1.0, 2.0, n)
             kw["v_weights"] = np.linspace(1.0, 3.0, m)
@@ -737,6 +741,47 @@ def run(ck: Check):
             check_grid_point(ck, rng, method, b, m, mt, "sampled")
         check_grid_point(ck, rng, "exact", b, m, mt, "default")
     corr_grid(ck, grid)
+
+    # ---- B2: MMD with a kernel whose diagonal is not 1 (polynomial), with and without chunking: the null statistics must
+    #      still be the detector's own compare() on the re-splits, and the observed one compare's distance
+    ck.rule("B2: MMD with the polynomial kernel (x.y + c)^2 (k(x,x) != 1), chunk_size None / 3: observed = compare, every null statistic = a fresh detector's compare on the recorded re-split")
+    for i in range(3 if not thorough else 12):
+        n, m = rng.choice([(6, 6), (9, 5), (5, 11)])
+        nprng = np.random.RandomState(rng.randrange(2**31))
+        X, Y = nprng.normal(1.0, 1.0, (n, 2)), nprng.normal(1.5, 1.2, (m, 2))
+        spec = {"kernel_poly": rng.choice([1.0, 0.5])}
+        if i % 2:
+            spec["chunk_size"] = 3
+        check_e2e(ck, "MMD", spec, X, Y, dict(num_permutations=rng.choice([6, 15]), method=rng.choice(["exact", "conservative"]), random_state=rng.choice([0, 7, 31])), "poly-kernel")
+
+    # ---- D2: the SAME detector object asked twice (and with other consumers of the global generator in between): repeatable
+    ck.rule("D2: compare() called twice on one detector/callback with a fixed random_state, np.random used in between, and fit -> np.random -> compare: identical logs")
+    for name in ALL:
+        spec = pick_spec(rng, name)
+        n, m = rng.choice([(8, 8), (12, 7)])
+        nprng = np.random.RandomState(rng.randrange(2**31))
+        X, Y = (nprng.normal(0, 1, (n, 2)), nprng.normal(0.5, 1, (m, 2))) if name == "MMD" else (nprng.normal(0, 1, n), nprng.normal(0.5, 1, m))
+        from frouros.callbacks.batch import PermutationTestDistanceBased
+
+        try:
+            cb = PermutationTestDistanceBased(num_permutations=12, num_jobs=1, method="exact", random_state=rng.choice([0, 5, 123]), name="perm")
+            det = det_class(name)(callbacks=[cb], **build_args(name, spec, n, m))
+            det.fit(X=X)
+            np.random.seed(99)
+            np.random.rand(3)
+            _, l1 = det.compare(X=Y)
+            np.random.seed(12345)
+            np.random.rand(7)
+            _, l2 = det.compare(X=Y)
+        except Exception as e:  # noqa: BLE001
+            callback_failed(ck, name, spec, X, Y, e, dict(replay_kind="twice", detector=name, spec=spec))
+            continue
+        a, b_ = l1["perm"], l2["perm"]
+        ck.case(dict(kind="same-detector-twice", detector=name, spec=spec), nontrivial=True, key=repr(("twice", name, spec, X.tolist())))
+        ck.count("same_detector_twice")
+        same = eqf(float(a["observed_statistic"]), float(b_["observed_statistic"])) and eqf(float(a["p_value"]), float(b_["p_value"])) and len(a["permuted_statistics"]) == len(b_["permuted_statistics"]) and all(eqf(float(x), float(y)) for x, y in zip(a["permuted_statistics"], b_["permuted_statistics"]))
+        if not same:
+            ck.violation(dict(clause="repeatable", detector=name, scenario="same-detector-twice"), dict(what="two compare() calls on one detector with the same random_state log different null statistics / p-values", detector=name, spec=spec, X_ref=X.tolist(), X_test=Y.tolist(), p=(float(a["p_value"]), float(b_["p_value"])), null_a=[float(x) for x in a["permuted_statistics"][:6]], null_b=[float(x) for x in b_["permuted_statistics"][:6]]))
 
     # ---- D
     ck.rule("D: num_jobs in {1,2,3} (and -1 once per detector in thorough) and a repeated run, fixed random_state (0 over-represented: a legal seed), the global generator left in a different state before every run: observed, every null statistic and the p-value must be identical")
